@@ -1257,8 +1257,12 @@ def run(ctx):
 
 
 # ------------------------------------------------------------------------------------------
-# Findings on the UNCHANGED tree (all four reproduce on every seed 0..4, quick tier; proposed minimal fixes, not applied,
-# in /verif/proposed_fixes/C18-<key with / -> _>.diff; with the four diffs applied together the check is silent):
+# Findings on the tree as first examined (78296c9bd; all four reproduced on every seed 0..4 in both tiers; proposed fixes in
+# /verif/proposed_fixes/C18-<key with / -> _>.diff).  Status: all four are repaired in /repo by `fix:` commits -- de2d4ac34
+# (tokens recorded), e52576a7a (uid delimiter), bfa095d98 (paths resolved in _compile), 390f9ca43 (read_input_group refuses
+# members with equal file names with a BatchException instead of relocating them: a declared, loud refusal is not a violation
+# and is counted as equal_basename_input_groups_refused_at_declaration).  On that HEAD the check is silent, seeds 0..2, both tiers;
+# reverting each of the four fix commits alone (scratch worktree, quick tier) is caught with exactly its own key.
 #
 #  extension/added-after-mention-stale-path
 #      `j.command(f'... > {j.ofile}')` then `j.ofile.add_extension('.txt')` (the order shown in the add_extension docstring and
@@ -1276,7 +1280,7 @@ def run(ctx):
 #      f'{j.ofile}2' -> `__RESOURCE_FILE__12`: the regex `__RESOURCE_FILE__\d+` takes the digit; if resource 12 exists in the batch
 #      the command silently uses the other resource (and gets its dependency), otherwise BatchException (loud, not counted).
 #
-# Validation record (scratch worktree = unchanged tree + the four proposed fixes, so that exit 1 is due to the break alone;
+# Validation record (scratch worktree = 78296c9bd + the four proposed fixes, so that exit 1 is due to the break alone;
 # quick tier, seed 0; one break at a time; all exit 1).  "DESIGN" = break listed in DESIGN.md §C18.
 #
 #  D1  DESIGN backend.py copy_input downloads job files from `remote_tmpdir/<uid>/` + extra slash (upload and download
